@@ -192,6 +192,7 @@ Definition lres_to_sexp (r : lerr + string) : sexp :=
 
 Definition run_loader (e : sexp) : sexp :=
   match e with
+  | L [A "constants"] => L [L (map A extensions); A (join_nl [""; ""])]
   | L [A "suffix"; A s] => A (suffix s)
   | L [A "path-leb"; p; q] =>
       match dList dStr p, dList dStr q with
